@@ -135,6 +135,12 @@ def run_standard(prop, tier, gens, case_of, trace, key_of, corruptors, init_name
         for ci, (sel, mut) in enumerate(corruptors):
             src = next((cand[k] for k in range(len(cand)) if owner[k] == ci and k in accepted), None)
             if src is None:
+                if res['nbad'] > 0:
+                    # the change under test broke every candidate of this corruptor: the run reports violations anyway
+                    # (exit 1), which binds the spec to the code more directly than a corrupted observation would
+                    print('self-test: no accepted observation to corrupt for %s (the run itself reports violations)'
+                          % getattr(mut, '__name__', 'corruptor'))
+                    continue
                 print('MACHINERY: binding self-test found no event to corrupt for %s' % getattr(mut, '__name__', 'corruptor'))
                 return 2
             if good is None:
